@@ -107,6 +107,19 @@ def run():
         if [e for e in between if e in ("out:1", "out:2")] != wanted * (2 if "@^" in rq["src"] and False else 1):
             ck.reject("C08:varcall-arguments-not-evaluated", f"{rq['src'].splitlines()[2]!r}: the arguments written at the variable call are evaluated {between} (each must be evaluated exactly once, in order)",
                       {"src": rq["src"], "observed": ev, "expected_between_70_and_71": wanted})
+    # both operands of an infix operator are evaluated, once and left to right, also when the left value does not define the operator
+    # (the expression is then nil) or defines it itself
+    oreqs = []
+    for op in ("-", "*", "/", "<", "**", "+", "==", "<=>", "%", "//"):
+        oreqs.append((f"say(say(1).{{|u| {{a: 1}}}} {op} say(2))", ["out:1", "out:2"]))
+        oreqs.append((f"o := {{'{op}: m{{|x| say(9); x}}}}; say(70); r := say(1).{{|u| o}} {op} say(2); say(71); r", ["out:70", "out:1", "out:2", "out:9", "out:71"]))
+    oout = run_cases([{"id": f"o{k}", "src": src} for k, (src, _) in enumerate(oreqs)], label="C08 operands of operators the left value lacks / defines")
+    for k, (src, want) in enumerate(oreqs):
+        o = oout[f"o{k}"]
+        got = [e for e in o["events"] if e in ("out:1", "out:2", "out:9", "out:70", "out:71")]
+        if got != want and not o["end"].startswith(("discarded:", "fuel:")):
+            ck.reject("C08:operands:" + ("own-operator" if "'" in src else "missing-operator"), f"{src!r}: operands evaluated as {got} (end {o['end'][:60]}), expected {want}",
+                      {"src": src, "observed": o["events"], "expected": want})
     fout = run_cases([{"id": f"w{k}", "src": src} for k, (src, _) in enumerate(FIRST_WINS)], label="C08 first occurrence wins")
     for k, (src, want) in enumerate(FIRST_WINS):
         if fout[f"w{k}"]["end"] != want and not fout[f"w{k}"]["end"].startswith(("discarded:", "fuel:")):
